@@ -540,6 +540,8 @@ def check_C06(run, replay=None):
     F.std_scenarios(env, rng, n // 2, prof, nops=(20, 50))
     F.std_scenarios(env, rng, n // 2, prof, nops=(20, 50), img_kw=dict(big_dir=True))
     F.std_scenarios(env, rng, max(n // 10, 4), prof, nops=(15, 35), want=["f32_root5"], img_kw=dict(free_left=12), per_image=2)
+    ro = fsgen.profile(weights=dict(iter=14, find=10, opendir=10, closedir=6, open=3, close=2, delete=0, mkdir=0, write=0, bad=1, read=0, seek=0, query=0, io=0, remount=1, flush=0))
+    F.std_scenarios(env, rng, max(n // 8, 6), ro, nops=(12, 30), want=["f32_root5", "f32_oor", "f16_spc8", "f16_spc2", "f16_spc128"], img_kw=dict(stale_tail=True), per_image=2)
     corpus(env, rng, {"e5-name"})
     grow_scripts(env, rng, max(n // 10, 4), big=True)
     env.run_all(writes=True)
